@@ -203,6 +203,18 @@ def step (s : St) (line : String) : St × String :=
         let r := getBlock bs .blockOut w unpacked (blkLoad s.img off w unpacked)
         (s, (match r.1 with | .ok n => s!"ok {n}" | .error e => "err " ++ e.name) ++ unsafeTag r.2)
       | _, _, _, _, _ => (s, "bad-op")
+  | ["dread", bs, filesz, start, fidx, foff, fstart, fword, off, size, ws] =>
+      match u32 bs, u64 filesz, u64 start, u32 fidx, u32 foff, u64 fstart, u32 fword, u64 off, u32 size, wordsOf ws with
+      | some bs, some filesz, some start, some fidx, some foff, some fstart, some fword, some off, some size, some ws =>
+        if bs == 0 then (s, "bad-op") else
+        let blkOk := fun (i : Nat) =>
+          let (o, _) := blockLocation bs ws start 0 i
+          let w := ws.getD i 0
+          match (getBlock bs .dataBlock w bs (blkLoad s.img o w bs)).1 with | .ok _ => true | .error _ => false
+        let pre := precacheFrag s.img bs fidx fstart fword
+        let r := dataRead bs (fun i => ws.getD i 0) blkOk ws.size filesz off size foff pre.1
+        (s, (match r.1 with | .ok n => s!"ok {n}" | .error _ => "err") ++ unsafeTag r.2)
+      | _, _, _, _, _, _, _, _, _, _ => (s, "bad-op")
   | ["inode", bs, h] => match u64 bs, fromHex h with
       | some bs, some b => if bs == 0 then (s, "bad-op") else (s, inodeOp bs (bytesToImage b))
       | _, _ => (s, "bad-op")
